@@ -12,6 +12,12 @@
 (*                          [, WithRequestTimeout]) and - th = "now" - call.Then(callback) *)
 (*   "then" (rq)            call.Then(callback) on the handle of an earlier request        *)
 (*   "cancel" (rq)          call.Cancel() from inside the handler                          *)
+(*   "disable" / "enable"   ctx.DisableReentrancy() / ctx.EnableReentrancy(AllowAll,       *)
+(*                          MaxInFlight): the default policy goes Off / back on; requests   *)
+(*                          in flight, their counters and the stash must survive the cycle. *)
+(*                          A request with mode "default" carries no per-call mode override *)
+(*                          and is refused (ErrReentrancyDisabled) while the policy is Off; *)
+(*                          "allow" / "stash" are per-call overrides and are still admitted *)
 (* Everything that completes a request reaches R through its mailbox as an AsyncResponse:  *)
 (*   Reply(rq)              the responder (one actor per request, held by the harness)     *)
 (*                          calls ctx.Response                                             *)
@@ -32,6 +38,7 @@ CONSTANTS MaxCmd,       \* commands sent per history
           Defects
 
 VARIABLES life,      \* "running" | "stopped"
+          enabled,   \* the default request policy is on (AllowAll) / Off after DisableReentrancy
           mb,        \* R's mailbox: Seq of [k |-> "cmd", id, op, mode, tmo, th, rq] or [k |-> "resp", rq, why]
           cur,       \* the command whose handler is held (id = 0: none)
           ncmd, nreq,
@@ -43,14 +50,14 @@ VARIABLES life,      \* "running" | "stopped"
           cblog,     \* Seq of [rq, out]: continuations in the order they ran
           last       \* output-only description of the step
 
-vars == <<life, mb, cur, ncmd, nreq, req, inflight, blocking, stash, handled, cblog, last>>
-core == <<life, mb, cur, ncmd, nreq, req, inflight, blocking, stash, handled, cblog>>
+vars == <<life, enabled, mb, cur, ncmd, nreq, req, inflight, blocking, stash, handled, cblog, last>>
+core == <<life, enabled, mb, cur, ncmd, nreq, req, inflight, blocking, stash, handled, cblog>>
 
 NoCmd == [k |-> "cmd", id |-> 0, op |-> "", mode |-> "", tmo |-> FALSE, th |-> "", rq |-> 0]
 NoReq == [st |-> "none", mode |-> "", out |-> "", hascb |-> FALSE, cbs |-> 0, tmo |-> "none", creq |-> FALSE, replied |-> FALSE]
 Reqs == 1..MaxReq
 
-Init == /\ life = "running" /\ mb = <<>> /\ cur = NoCmd /\ ncmd = 0 /\ nreq = 0
+Init == /\ life = "running" /\ enabled = TRUE /\ mb = <<>> /\ cur = NoCmd /\ ncmd = 0 /\ nreq = 0
         /\ req = [r \in Reqs |-> NoReq] /\ inflight = 0 /\ blocking = 0 /\ stash = <<>>
         /\ handled = <<>> /\ cblog = <<>>
         /\ last = [a |-> "Init", id |-> 0, op |-> "", mode |-> "", tmo |-> FALSE, th |-> "", rq |-> 0, err |-> ""]
@@ -93,6 +100,8 @@ Lbl(a, m, err) == last' = [a |-> a, id |-> m.id, op |-> m.op, mode |-> m.mode, t
 \* ---- the harness sends a command (actor.Tell) ----------------------------------------------
 Ops == [op : {"plain"}, mode : {""}, tmo : {FALSE}, th : {""}, rq : {0}]
        \cup [op : {"req"}, mode : {"allow", "stash"}, tmo : BOOLEAN, th : {"now", "later"}, rq : {0}]
+       \cup [op : {"req"}, mode : {"default"}, tmo : {FALSE}, th : {"now"}, rq : {0}]
+       \cup [op : {"disable", "enable"}, mode : {""}, tmo : {FALSE}, th : {""}, rq : {0}]
        \cup [op : {"then", "cancel"}, mode : {""}, tmo : {FALSE}, th : {""}, rq : Reqs]
 
 Send(o) ==
@@ -104,7 +113,7 @@ Send(o) ==
   /\ ncmd' = ncmd + 1
   /\ LET m == [k |-> "cmd", id |-> ncmd + 1, op |-> o.op, mode |-> o.mode, tmo |-> o.tmo, th |-> o.th, rq |-> o.rq]
      IN Apply(Drain([Rec EXCEPT !.mb = Append(mb, m)])) /\ Lbl("Send", m, "")
-  /\ UNCHANGED <<life, nreq, handled>>
+  /\ UNCHANGED <<life, enabled, nreq, handled>>
 
 \* ---- the held handler runs its operation on R's turn and returns -----------------------------
 Finish ==
@@ -112,11 +121,19 @@ Finish ==
   /\ handled' = Append(handled, cur.id)
   /\ LET s0 == [Rec EXCEPT !.cur = NoCmd] IN
      CASE cur.op = "plain" -> Apply(Drain(s0)) /\ Lbl("Finish", cur, "") /\ UNCHANGED nreq
+       [] cur.op = "disable" -> Apply(Drain(s0)) /\ Lbl("Finish", cur, "") /\ UNCHANGED nreq
+       [] cur.op = "enable" ->
+            \* installReentrancy retunes the existing state; "FreshOnEnable": a policy that is Off is replaced by a fresh one
+            IF "FreshOnEnable" \in Defects /\ ~enabled
+            THEN Apply(Drain([s0 EXCEPT !.inflight = 0, !.blocking = 0])) /\ Lbl("Finish", cur, "") /\ UNCHANGED nreq
+            ELSE Apply(Drain(s0)) /\ Lbl("Finish", cur, "") /\ UNCHANGED nreq
+       [] cur.op = "req" /\ cur.mode = "default" /\ ~enabled ->
+            Apply(Drain(s0)) /\ Lbl("Finish", cur, "disabled") /\ UNCHANGED nreq
        [] cur.op = "req" ->
             IF MaxInFlight > 0 /\ inflight >= MaxInFlight + (IF "LimitOffByOne" \in Defects THEN 1 ELSE 0)
             THEN Apply(Drain(s0)) /\ Lbl("Finish", cur, "limit") /\ UNCHANGED nreq
             ELSE LET r == nreq + 1
-                     q == [NoReq EXCEPT !.st = "inflight", !.mode = cur.mode, !.hascb = (cur.th = "now"),
+                     q == [NoReq EXCEPT !.st = "inflight", !.mode = IF cur.mode = "default" THEN "allow" ELSE cur.mode, !.hascb = (cur.th = "now"),
                                         !.tmo = IF cur.tmo THEN "armed" ELSE "none"]
                      s1 == [s0 EXCEPT !.req[r] = q, !.inflight = inflight + 1,
                                       !.blocking = IF cur.mode = "stash" THEN blocking + 1 ELSE blocking]
@@ -137,6 +154,7 @@ Finish ==
                                             !.mb = Append(mb, [k |-> "resp", rq |-> cur.rq, why |-> "cancel"])]
                       ELSE s0
             IN Apply(Drain(s1)) /\ Lbl("Finish", cur, "") /\ UNCHANGED nreq
+  /\ enabled' = CASE cur.op = "disable" -> FALSE [] cur.op = "enable" -> TRUE [] OTHER -> enabled
   /\ UNCHANGED <<life, ncmd>>
 
 \* ---- completion sources, all off R's turn ---------------------------------------------------------
@@ -147,14 +165,14 @@ Reply(r) ==
   /\ LET s1 == [Rec EXCEPT !.req[r] = [req[r] EXCEPT !.replied = TRUE],
                            !.mb = IF life = "running" THEN Append(mb, [k |-> "resp", rq |-> r, why |-> "reply"]) ELSE mb]
      IN Apply(Drain(s1))
-  /\ Pseudo("Reply", r) /\ UNCHANGED <<life, ncmd, nreq, handled>>
+  /\ Pseudo("Reply", r) /\ UNCHANGED <<life, enabled, ncmd, nreq, handled>>
 
 TimeoutFire(r) ==
   /\ r <= nreq /\ req[r].tmo = "armed"
   /\ LET s1 == [Rec EXCEPT !.req[r] = [req[r] EXCEPT !.tmo = "fired"],
                            !.mb = IF life = "running" THEN Append(mb, [k |-> "resp", rq |-> r, why |-> "timeout"]) ELSE mb]
      IN Apply(Drain(s1))
-  /\ Pseudo("TimeoutFire", r) /\ UNCHANGED <<life, ncmd, nreq, handled>>
+  /\ Pseudo("TimeoutFire", r) /\ UNCHANGED <<life, enabled, ncmd, nreq, handled>>
 
 Cancel(r) ==
   /\ r <= nreq /\ req[r].st # "none"
@@ -163,7 +181,7 @@ Cancel(r) ==
          s1 == IF go THEN [Rec EXCEPT !.req[r] = [q EXCEPT !.creq = TRUE], !.mb = Append(mb, [k |-> "resp", rq |-> r, why |-> "cancel"])]
                ELSE Rec
      IN Apply(Drain(s1))
-  /\ Pseudo("Cancel", r) /\ UNCHANGED <<life, ncmd, nreq, handled>>
+  /\ Pseudo("Cancel", r) /\ UNCHANGED <<life, enabled, ncmd, nreq, handled>>
 
 \* PID.Shutdown of the idle requester
 Stop ==
@@ -172,7 +190,7 @@ Stop ==
   /\ req' = [r \in Reqs |-> IF req[r].st = "inflight" THEN [req[r] EXCEPT !.st = "done", !.out = "stopped"] ELSE req[r]]
   /\ inflight' = 0 /\ blocking' = 0
   /\ Pseudo("Stop", 0)
-  /\ UNCHANGED <<mb, cur, ncmd, nreq, stash, handled, cblog>>
+  /\ UNCHANGED <<enabled, mb, cur, ncmd, nreq, stash, handled, cblog>>
 
 Next == \/ \E o \in Ops : Send(o)
         \/ Finish
